@@ -37,6 +37,8 @@ def gen_life_scenario(rng, tier, kind):
         sc["post_ops"] = [CS.gen_op(rng, False) for _ in range(rng.randrange(0, 4))]
         sc["never_connected"] = rng.random() < 0.05
         sc["early_closer"] = rng.random() < 0.2  # a thread that calls close() while connect() may still be in progress
+    # the same connection object has already been through a complete, planned session (connect, close)
+    sc["prior_session"] = rng.random() < 0.2 and not sc.get("early_closer") and not sc.get("never_connected")
     return sc
 
 
@@ -89,6 +91,18 @@ def run_life_scenario(sc):
             do_close(c)
             c.put("MAIN", "VOL", "Up")
             return
+        if sc.get("prior_session"):
+            # an earlier, planned session on the same object; the trace of the session under test starts afterwards
+            c.connect(dcb if sc["disc_cb"] else None, sc["log_size"])
+            s.sleep(0.7)
+            c.close()
+            s.sleep(0.3)
+            s.prior = {"disconnects": len(s.disconnects), "threads_done": all(t.state == "done" for t in s.sim.threads if t.name in ("reader", "sender"))}
+            del s.disconnects[:]
+            del s.user_cb[:]
+            del s.deliveries[:]
+            del s.sim.events[:]
+            ndeliv[0] = 0
         early = None
         if sc.get("early_closer"):
             early = s.sim.spawn(lambda: do_close(c), "caller9")
